@@ -291,6 +291,69 @@ def g94_whole(ctx, b, label):
         ctx.compare('g94_read_all', shape(r), norm_read(m), dict(replay, variant=variant))
 
 
+def whole_shape(r):
+    if r[0] != 'ok':
+        return ('error', 'any')
+    return ('ok', [[int(z), {'electron_shells': el.get('electron_shells'), 'ecp_electrons': el.get('ecp_electrons'),
+                             'ecp_potentials': el.get('ecp_potentials')}] for z, el in r[1]['elements'].items()])
+
+
+def model_shape(m, empty_as_none=True):
+    """the whole-file models return [] / None for an absent part in their own ways: one canonical form"""
+    if m[0] != 'ok':
+        return ('error', 'any')
+    out = []
+    for z, el in m[1]:
+        sh, ne, ps = el.get('electron_shells'), el.get('ecp_electrons'), el.get('ecp_potentials')
+        if ne is None and not ps:
+            ps = None
+        if ps is None and sh == [] and empty_as_none:
+            sh = sh
+        out.append([z, {'electron_shells': sh if sh else (None if sh is None or (sh == [] and ps is not None) else sh), 'ecp_electrons': ne, 'ecp_potentials': ps}])
+    return ('ok', out)
+
+
+def canon_whole(r):
+    if r[0] != 'ok':
+        return r
+    return ('ok', [[z, {'electron_shells': el['electron_shells'] or None, 'ecp_electrons': el['ecp_electrons'], 'ecp_potentials': el['ecp_potentials'] or None}]
+                   for z, el in r[1]])
+
+
+WHOLE_FORMATS = {
+    # format: (pipeline after which the writer prints, write op, read op, extra leading arguments of the write op)
+    'turbomole': (lambda manip, sort, x: sort.sort_basis(manip.uncontract_spdf(manip.uncontract_general(x, True), 0, False), False),
+                  'tmecp_write', 'tmecp_read', lambda b: [b.get('role', 'orbital'), b['name']]),
+    'gamess_us': (lambda manip, sort, x: sort.sort_basis(manip.uncontract_spdf(manip.uncontract_general(x, True), 1, False), False),
+                  'gus_write_all', 'gus_read_all', lambda b: []),
+}
+
+
+def whole_file(ctx, b, label, fmt):
+    """a whole-file layout model (electron + ECP parts) against the writer / reader of that format"""
+    from basis_set_exchange import writers, readers, manip, sort
+    if ctx.model is None:
+        return
+    pipe, wop, rop, lead = WHOLE_FORMATS[fmt]
+    w = impl.call(writers.write_formatted_basis_str, copy.deepcopy(b), fmt)
+    pb = impl.call(lambda x: pipe(manip, sort, x), copy.deepcopy(b))
+    if w[0] != 'ok' or pb[0] != 'ok' or len(w[1]) > 200000:
+        return
+    els = [[int(z), el['electron_shells']] for z, el in pb[1]['elements'].items() if 'electron_shells' in el]
+    ecps = [[int(z), el['ecp_electrons'], el['ecp_potentials']] for z, el in pb[1]['elements'].items() if 'ecp_potentials' in el]
+    replay = {'kind': fmt + '-whole', 'label': label, 'input': b if len(str(b)) < 15000 else None}
+    ctx.case((label, fmt + '-whole'), True, fmt + '-whole')
+    ctx.compare(wop, ('ok', w[1]), ctx.model.call(wop, *(lead(b) + [els, ecps])), replay)
+    for variant, lines in (('as-written', w[1].splitlines()), ('damaged', damage_lines(w[1].splitlines(), random.Random(len(w[1]) + 3)))):
+        r = impl.call(readers.read_formatted_basis_str, '\n'.join(lines) + ('\n' if variant == 'damaged' or w[1].endswith('\n') else ''), fmt)
+        m = ctx.model.call(rop, lines)
+        if m[0] == 'error' and 'NotImpl' in str(m[1]):
+            ctx.dist[fmt + '-whole-read:outside-modelled-fragment'] += 1
+            continue
+        ctx.case((label, fmt + '-whole-read', variant), True, fmt + '-whole-read:' + variant)
+        ctx.compare(rop, canon_whole(whole_shape(r)), canon_whole(norm_read(m)), dict(replay, variant=variant))
+
+
 def norm_read(r):
     if r[0] != 'ok':
         return ('error', 'any')      # the reader's error classes (RuntimeError / KeyError / IndexError ...) are not part of the property
@@ -375,6 +438,8 @@ def work_store(ctx, item):
     tm_layout(ctx, b, label)
     nwchem_whole(ctx, b, label)
     g94_whole(ctx, b, label)
+    for wf in WHOLE_FORMATS:
+        whole_file(ctx, b, label, wf)
     if rng.random() < (1.0 if ctx.thorough() else 0.4):
         file_and_convert(ctx, b, label, rng)
     ctx.sample({'store': label, 'formats': rw_formats()})
@@ -413,6 +478,8 @@ def work_generated(ctx, seed):
     tm_layout(ctx, b, 'gen:%d:%s' % (seed, kind))
     nwchem_whole(ctx, b, 'gen:%d:%s' % (seed, kind))
     g94_whole(ctx, b, 'gen:%d:%s' % (seed, kind))
+    for wf in WHOLE_FORMATS:
+        whole_file(ctx, b, 'gen:%d:%s' % (seed, kind), wf)
     if seed % 5 == 0 and kind == 'plain':
         file_and_convert(ctx, b, 'gen:%d' % seed, rng)
 
@@ -430,6 +497,9 @@ def run(ctx):
         pairs = store.all_pairs(md)
     else:
         names = store.sample_names(ctx.rng, 40, md)
+        # one basis of every role (the role decides the section keyword of some formats)
+        for role in sorted({v['role'] for v in md.values()}):
+            names.append(sorted(k for k, v in md.items() if v['role'] == role)[0])
         pairs = [(n, md[n]['latest_version']) for n in names]
     store.parallel(ctx, work_store, pairs)
     store.parallel(ctx, work_generated, [ctx.seed * 67 + i for i in range(ctx.budget(60, 3000))])
